@@ -2,6 +2,7 @@ import Model.Optimizer
 import Proofs.Real
 import Proofs.OptimizerLemmas
 import Mathlib.Tactic
+import Proofs.MeanG
 
 /-!
 # C03 — optimizer steps follow the documented update rules for every history
@@ -14,8 +15,10 @@ import Mathlib.Tactic
   slot after any interleaved history equals that of its own sub-history (for every scalar type).
 
 Not a theorem (float rounding): the NaN/overflow behaviour at `f32`; searched on the implementation.
-Rank-independence: the model applies one scalar rule through the rank-specific zips `nzip1/2/3`;
-that the three Rust copies agree with it is the correspondence + the rank oracle of the harness.
+Rank-independence: the model applies one scalar rule through the rank-specific zips `nzip1/2/3`
+(`nzip_elementwise_rank1/2/3`: at every rank, every position of the result is the scalar rule applied
+to the operands' entries at that position); that the three Rust copies agree with the model is the
+correspondence + the rank oracle of the harness.
 -/
 
 set_option linter.unusedSectionVars false
@@ -373,5 +376,61 @@ theorem run_slot_independent (l f : Nat) (bias : Bool) :
               getSlot p' l f (if bias then 1 else 0) := by
             rw [getSlot_setSlot_other p _ _ _ l f _ v' hne]; exact hp
           exact ih oa o' _ p' (hka.trans hk) ⟨a1.trans b1, a2.trans b2, a3.trans b3⟩ hp2 o1 p1 hr
+
+
+/-! ### rank independence: the same scalar rule at every position, for ranks 1, 2 and 3 -/
+
+section ranks
+variable {β : Type} [Scalar β]
+open Tensor
+
+theorem mapM_asSingle (os : List (V1 β)) (sh : V1 β → Shape) :
+    L.mapM' asSingle (os.map (fun o => (⟨sh o, .single o⟩ : Tensor β))) = .ok os := by
+  induction os with
+  | nil => rfl
+  | cons o os ih => simp [L.mapM', ih, asSingle]
+
+theorem mapM_asDouble (os : List (V2 β)) (sh : Shape) :
+    L.mapM' asDouble (os.map (fun o => (⟨sh, .double o⟩ : Tensor β))) = .ok os := by
+  induction os with
+  | nil => rfl
+  | cons o os ih => simp [L.mapM', ih, asDouble]
+
+theorem mapM_asTriple (os : List (V3 β)) (sh : Shape) :
+    L.mapM' asTriple (os.map (fun o => (⟨sh, .triple o⟩ : Tensor β))) = .ok os := by
+  induction os with
+  | nil => rfl
+  | cons o os ih => simp [L.mapM', ih, asTriple]
+
+/-- rank 1 (biases, dense rows): position `j` of the result is `f self[j] [o[j] | o ∈ others]` -/
+theorem nzip_elementwise_rank1 (f : β → List β → β) (d : V1 β) (others : List (V1 β)) (sh : Shape)
+    (h : ∀ o ∈ others, o.length = d.length) :
+    Tensor.nzip f ⟨sh, .single d⟩ (others.map (fun o => ⟨.single o.length, .single o⟩)) =
+      .ok ⟨sh, .single (MeanG.spec1 f d others)⟩ := by
+  simp only [Tensor.nzip, mapM_asSingle others (fun o => .single o.length), MeanG.nzip1_spec f d others h]
+
+/-- rank 2 (dense weight matrices) -/
+theorem nzip_elementwise_rank2 (f : β → List β → β) (d : V2 β) (others : List (V2 β)) (sh sh' : Shape) (hh ww : Nat)
+    (hd : L.Dims2 d hh ww) (ho : ∀ o ∈ others, L.Dims2 o hh ww) :
+    Tensor.nzip f ⟨sh, .double d⟩ (others.map (fun o => ⟨sh', .double o⟩)) =
+      .ok ⟨sh, .double (MeanG.spec2 f d others)⟩ := by
+  simp only [Tensor.nzip, mapM_asDouble others sh', MeanG.nzip2_spec f d others hh ww hd ho]
+
+/-- rank 3 (convolution / deconvolution kernels) -/
+theorem nzip_elementwise_rank3 (f : β → List β → β) (d : V3 β) (others : List (V3 β)) (sh sh' : Shape) (c hh ww : Nat)
+    (hd : L.Dims3 d c hh ww) (ho : ∀ o ∈ others, L.Dims3 o c hh ww) :
+    Tensor.nzip f ⟨sh, .triple d⟩ (others.map (fun o => ⟨sh', .triple o⟩)) =
+      .ok ⟨sh, .triple (MeanG.spec3 f d others)⟩ := by
+  simp only [Tensor.nzip, mapM_asTriple others sh', MeanG.nzip3_spec f d others c hh ww hd ho]
+
+/-- … and the entry of `spec3` at `(a, i, j)` is the scalar rule on the entries at `(a, i, j)`
+    (`MeanG.spec1_get`, `spec2_get` for the lower ranks) -/
+theorem rank3_entry (f : β → List β → β) (self : V3 β) (others : List (V3 β)) (c hh ww a i j : Nat)
+    (hs : L.Dims3 self c hh ww) (ha : a < c) (hi : i < hh) (hj : j < ww) :
+    (((MeanG.spec3 f self others).getD a []).getD i []).getD j 0 =
+      f (((self.getD a []).getD i []).getD j 0) (others.map (fun o => ((o.getD a []).getD i []).getD j 0)) :=
+  MeanG.spec3_get f self others c hh ww a i j hs ha hi hj
+
+end ranks
 
 end C03
